@@ -12,6 +12,10 @@ CONSTANTS
     MaxQ = 1000
     InsertFirst = FALSE
     WithHold = TRUE
+    MaxLen = 65497
+    BigOn = 3
+    ErrReadNeedsReply = FALSE
+    WithFault = TRUE
     EmptyOn = 1
     Hist = TRUE
 CONSTRAINT Furthest
